@@ -77,12 +77,34 @@ def run(chk):
             chk.violation("general-angle-off-by-more-than-half", "Transform::" + m["via"],
                           {k: c[k] for k in ("c", "s", "d", "r", "loc")}, m)
     chk.sample({"pythagorean": {k: pc[0][k] for k in ("c", "s", "d", "r", "loc")}, "points_with_numerators": pc[0]["pts"][:4]})
+    # general angles at two levels of a hierarchy whose middle cell is instantiated three times (a DAG): every flattened copy
+    cfg = os.path.join(W, "mc_pyth2.cfg")
+    open(cfg, "w").write("SPECIFICATION Spec\nINVARIANTS LengthPreserved SumOfAngles Emit\nCHECK_DEADLOCK FALSE\n")
+    r = tlc.check(os.path.join(D, "MC_D4Pyth2.tla"), cfg, timeout=3600)
+    chk.add_tlc("MC_D4Pyth2 rational rotations at two levels", r)
+    chk.tlc_must_pass("MC_D4Pyth2", r)
+    # (where the second rotation undoes the first, all points share one fractional part: 64 pairs keep no point at all)
+    pc2 = [dict(c, id=i) for i, c in enumerate(r.cases) if len(c["pts"]) >= 20]
+    chk.require(len(r.cases) == 2304 and len(pc2) >= 2200, "two-level pythagorean cases missing")
+    keys2 = ("c1", "s1", "d1", "r1", "loc1", "c2", "s2", "d2", "r2", "loc2")
+    for c, q in zip(pc2, vlib.harness("transform_pyth2", pc2, W)):
+        if q.get("outcome") != "ok":
+            chk.violation("transform-crash", "Layout::flatten", {k: c[k] for k in keys2}, q)
+            continue
+        chk.cov["evaluations"] += q["evals"]
+        distinct += 1
+        for m in q["mismatch"][:2]:
+            chk.violation("nested-general-angles-off-by-more-than-half" + (":repeated-cell" if m.get("copy", 0) > 0 else ""), "Layout::flatten",
+                          {k: c[k] for k in keys2}, m)
+    st = json.loads(json.dumps(pc2[7])); st["pts"][0][2] += 3 * st["den"]
+    q = vlib.harness("transform_pyth2", [st], W, tag="selftest2")[0]
+    chk.require(q["nmismatch"] > 0, "two-level replayer did not notice a wrong expected image")
     chk.cov["distinct_nontrivial"] = distinct
     return chk.finish(
         "model_checking",
         rule="every placement chain of depth 1..3 over 8 orientations x 3 offsets (14 424), depth 4 sampled 1/23 (quick) or "
              "exhaustive 331 776 (thorough), each compared on 49 grid points x 2 angle encodings x 2 compositions plus a flattened "
-             "3-shape leaf; 96 Pythagorean single placements. distinct = distinct chains.",
+             "3-shape leaf; 128 Pythagorean single placements; 2 304 pairs of Pythagorean placements at two levels of a hierarchy whose middle cell is instantiated three times (every flattened copy). distinct = distinct chains.",
         assumptions=["general angles restricted to rational sine/cosine (3-4-5, 5-12-13, 8-15-17 families)",
                      "angle 0 is given both as None and Some(0.0)"],
         extra={"exhaustive": thorough})
